@@ -13,9 +13,22 @@ fn main() {
         .filter(|p| p.extension().map(|e| e == "asn1").unwrap_or(false))
         .collect();
     files.sort();
+    // stable, append-only registration order (pinned replay tapes address types by index)
+    let order: Vec<String> = std::fs::read_to_string("zoo/ORDER").unwrap_or_default().lines().map(|l| l.trim().to_string()).filter(|l| !l.is_empty() && !l.starts_with('#')).collect();
+    let marker = order.iter().position(|l| l.starts_with("---")).unwrap_or(order.len());
+    let rank = |p: &std::path::PathBuf| -> (usize, String) {
+        let stem = p.file_stem().unwrap().to_str().unwrap().to_string();
+        match order.iter().position(|o| *o == stem) {
+            Some(i) => (i, stem),
+            None => (usize::MAX, stem),
+        }
+    };
+    files.sort_by_key(|p| rank(p));
+    println!("cargo:rerun-if-changed=zoo/ORDER");
 
     let mut out = String::new();
     let mut reg = String::new();
+    let mut reg_more = String::new();
     let mut texts = String::new();
     for path in &files {
         println!("cargo:rerun-if-changed={}", path.display());
@@ -61,14 +74,63 @@ fn main() {
             if flags.iter().any(|f| f == "noproto") {
                 flags.retain(|f| f != "proto" && f != "noproto");
             }
+            let base = rank(path).0 < marker;
             let _ = writeln!(
-                reg,
+                if base { &mut reg } else { &mut reg_more },
                 "    v.push(crate::zoo::ops::<{stem}::{name}>(\"{stem}.{name}\", {module:?}, &{flags:?}));",
             );
         }
     }
     let _ = writeln!(out, "pub fn register(v: &mut Vec<crate::zoo::TypeOps>) {{\n{}}}", reg);
+    let _ = writeln!(out, "pub fn register_more(v: &mut Vec<crate::zoo::TypeOps>) {{\n{}}}", reg_more);
     let _ = writeln!(out, "/// (rust module, ASN.1 module name, text)\npub const ZOO_TEXTS: &[(&str, &str, &str)] = &[\n{}];", texts);
     let dest = Path::new(&std::env::var("OUT_DIR").unwrap()).join("zoo_gen.rs");
     std::fs::write(dest, out).unwrap();
+
+    // front-end corpus: hand-written modules under /verif/corpus and the inline modules of /repo/tests/*.rs
+    let mut corpus = String::from("pub const CORPUS_TEXTS: &[(&str, &str)] = &[\n");
+    let mut add = |name: &str, text: &str| {
+        if text.contains("\"####") || text.len() > 8 * 1024 {
+            return;
+        }
+        let _ = writeln!(corpus, "    ({:?}, r####\"{}\"####),", name, text);
+    };
+    println!("cargo:rerun-if-changed=../corpus");
+    let mut cf: Vec<_> = std::fs::read_dir("../corpus").map(|d| d.filter_map(|e| e.ok()).map(|e| e.path()).collect()).unwrap_or_default();
+    cf.sort();
+    for p in &cf {
+        if p.extension().map(|e| e == "asn1").unwrap_or(false) {
+            println!("cargo:rerun-if-changed={}", p.display());
+            add(&format!("corpus/{}", p.file_stem().unwrap().to_str().unwrap()), &std::fs::read_to_string(p).unwrap());
+        }
+    }
+    println!("cargo:rerun-if-changed=/repo/tests");
+    let mut tf: Vec<_> = std::fs::read_dir("/repo/tests").map(|d| d.filter_map(|e| e.ok()).map(|e| e.path()).collect()).unwrap_or_default();
+    tf.sort();
+    for p in &tf {
+        if !p.extension().map(|e| e == "rs").unwrap_or(false) {
+            continue;
+        }
+        let Ok(src) = std::fs::read_to_string(p) else { continue };
+        let mut rest = &src[..];
+        let mut n = 0;
+        while let Some(i) = rest.find("asn_to_rust!(") {
+            rest = &rest[i + "asn_to_rust!(".len()..];
+            let t = rest.trim_start();
+            // raw string literal r"..." / r#"..."#
+            if let Some(r) = t.strip_prefix('r') {
+                let hashes = r.chars().take_while(|c| *c == '#').count();
+                let r2 = &r[hashes..];
+                if let Some(body) = r2.strip_prefix('"') {
+                    let close = format!("\"{}", "#".repeat(hashes));
+                    if let Some(end) = body.find(&close) {
+                        add(&format!("repo-tests/{}#{}", p.file_stem().unwrap().to_str().unwrap(), n), &body[..end]);
+                        n += 1;
+                    }
+                }
+            }
+        }
+    }
+    corpus.push_str("];\n");
+    std::fs::write(Path::new(&std::env::var("OUT_DIR").unwrap()).join("corpus_gen.rs"), corpus).unwrap();
 }
